@@ -7,6 +7,7 @@
 //
 //	add P | remove P PARK | start | stop J | resume          service operations (J/PARK: where to park in handler.stop())
 //	conn P 0|1 | notify P conn|disc                         environment
+//	run J stop flap                                          … whose Connectedness query is followed at once by a drop + Disconnected + startIfDisconnected
 //	run J start|stop | fire J | dial J | ret J ok|fail      one goroutine step of handler J
 //	list                                                     ListPeers (sorted)
 //	backoff D                                                call the real nextBackoff once from nextDelay = D
@@ -45,6 +46,7 @@ type parked struct {
 	kind string // "start" | "stop" | "rA" | "rB" | "svc"
 	idx  int
 	ch   chan error
+	gid  int64
 }
 
 type dialRec struct {
@@ -67,6 +69,9 @@ type env struct {
 	conn    map[peer.ID]bool
 	notifee network.Notifiee
 	svcBusy bool
+	flap     bool // the next Connectedness query of a stopIfConnected goroutine is followed at once by a drop of the connection
+	flapDone bool
+	spawnN   int
 }
 
 var envOfPeer sync.Map // peer.ID -> *env
@@ -82,7 +87,7 @@ func (e *env) idxOf(h peering.VerifHandler) int { // e.mu held
 }
 
 func (e *env) park(kind string, idx int) error { // e.mu held; returns with e.mu released
-	p := &parked{kind: kind, idx: idx, ch: make(chan error, 1)}
+	p := &parked{kind: kind, idx: idx, ch: make(chan error, 1), gid: goid()}
 	e.parked = append(e.parked, p)
 	e.active--
 	e.cond.Broadcast()
@@ -159,6 +164,7 @@ func spawnHook(h peering.VerifHandler, what string) {
 	if !e.drained {
 		e.idxOf(h)
 		e.active++
+		e.spawnN++
 	}
 	e.mu.Unlock()
 }
@@ -225,13 +231,94 @@ type fakeNet struct {
 }
 
 func (n *fakeNet) Connectedness(p peer.ID) network.Connectedness {
-	n.e.mu.Lock()
-	defer n.e.mu.Unlock()
-	if n.e.conn[p] {
+	e := n.e
+	gid := goid()
+	e.mu.Lock()
+	c := e.conn[p]
+	doFlap := e.flap && c && e.gkind[gid] == "notif" && !e.drained
+	var nf network.Notifiee
+	n0 := e.spawnN
+	before := map[*parked]bool{}
+	if doFlap {
+		// schedule point inside the query: the peer answers "connected", and the connection drops right away — the
+		// Disconnected notification is delivered and its startIfDisconnected goroutine is let run BEFORE this query returns
+		// (it finishes, or it has to wait for the handler's lock if the querying goroutine holds it)
+		e.flap, e.flapDone = false, true
+		e.conn[p] = false
+		nf = e.notifee
+		for _, pk := range e.parked {
+			before[pk] = true
+		}
+	}
+	e.mu.Unlock()
+	if doFlap && nf != nil {
+		nf.Disconnected(n, fakeConn{p: p})
+		e.mu.Lock()
+		spawned := e.spawnN > n0
+		e.mu.Unlock()
+		if spawned {
+			var pk *parked
+			for i := 0; i < 40000 && pk == nil; i++ {
+				e.mu.Lock()
+				for k, q := range e.parked {
+					if q.kind == "start" && !before[q] {
+						pk = q
+						e.parked = append(e.parked[:k], e.parked[k+1:]...)
+						e.active++
+						break
+					}
+				}
+				e.mu.Unlock()
+				if pk == nil {
+					time.Sleep(50 * time.Microsecond)
+				}
+			}
+			if pk == nil {
+				panic("harness: the startIfDisconnected goroutine of the flap did not arrive")
+			}
+			pk.ch <- nil
+			confirm := 0
+			for i := 0; i < 20000; i++ {
+				e.mu.Lock()
+				_, alive := e.gkind[pk.gid]
+				e.mu.Unlock()
+				if !alive {
+					break // it ran to completion
+				}
+				if strings.HasPrefix(goroutineWait(pk.gid), "sync.") {
+					confirm++
+					if confirm >= 5 {
+						break // it waits for ph.mu, which the querying goroutine holds
+					}
+				} else {
+					confirm = 0
+				}
+				time.Sleep(500 * time.Microsecond)
+			}
+		}
+	}
+	if c {
 		return network.Connected
 	}
 	return network.NotConnected
 }
+
+// goroutineWait returns the runtime's wait reason of goroutine gid ("" if it is not waiting / not found).
+func goroutineWait(gid int64) string {
+	buf := make([]byte, 1<<20)
+	n := runtime.Stack(buf, true)
+	pre := fmt.Sprintf("goroutine %d [", gid)
+	for _, blk := range strings.Split(string(buf[:n]), "\n\n") {
+		if strings.HasPrefix(blk, pre) {
+			hdr := blk[len(pre):]
+			if k := strings.IndexAny(hdr, ",]"); k >= 0 {
+				return hdr[:k]
+			}
+		}
+	}
+	return ""
+}
+
 func (n *fakeNet) Notify(nf network.Notifiee)     { n.e.mu.Lock(); n.e.notifee = nf; n.e.mu.Unlock() }
 func (n *fakeNet) StopNotify(nf network.Notifiee) {}
 
@@ -604,11 +691,23 @@ func exec(c vh.Case, o *vh.Out) {
 			e.settle()
 			o.Kind("notify-" + f[2])
 		case "run":
-			if !e.release(f[2], vh.Atoi(f[1]), nil) {
+			flap := len(f) > 3 && f[3] == "flap" && f[2] == "stop" && !busy
+			e.mu.Lock()
+			e.flap, e.flapDone = flap, false
+			e.mu.Unlock()
+			ok := e.release(f[2], vh.Atoi(f[1]), nil)
+			e.mu.Lock()
+			e.flap = false
+			flapped := e.flapDone
+			e.mu.Unlock()
+			if !ok {
 				res = "disabled"
 				break
 			}
 			o.Kind("run-" + f[2])
+			if flapped {
+				o.Kind("flap")
+			}
 		case "fire":
 			j := vh.Atoi(f[1])
 			hs := r.handlers()
